@@ -700,8 +700,16 @@ class Fn:
         self.in_loop -= 1
         del self.loopvars[nm]
         self.flush(lines)
-        lines.append('let s := CSem.loopRange %d s.%s (fun %s s => if s.brk then s else (' % (start, lname(bname), lname(nm)))
-        lines += ['  ' + l for l in b] + ['  s)) s', 'let s := { s with brk := false }']
+        self.nloops = getattr(self, 'nloops', 0) + 1
+        lname_loop = '%s.loop%d' % (lname(self.name), self.nloops)
+        if not hasattr(self, 'loopdefs'):
+            self.loopdefs = []
+        self.loopdefs.append(['/-- body of the %s `for` loop of %s (one iteration; skipped once a `break` was executed) -/' % (
+                                  {1: 'first', 2: 'second', 3: 'third'}.get(self.nloops, '%d-th' % self.nloops), self.name),
+                              'def %s (env : Env) (%s : Nat) (s : %s.S) : %s.S :=' % (lname_loop, lname(nm), lname(self.name), lname(self.name)),
+                              '  if s.brk then s else ('] + ['    ' + l for l in b] + ['    s)', ''])
+        lines.append('let s := CSem.loopRange %d s.%s (%s env) s' % (start, lname(bname), lname_loop))
+        lines.append('let s := { s with brk := false }')
 
     def decl_var(self, v, lines):
         nm = v['name']
@@ -834,6 +842,8 @@ class Fn:
         out += ['  ret : %s' % rt[0], '  done : Bool', '  brk : Bool', 'deriving Repr, DecidableEq', '']
         ps = ' '.join('(%s : %s)' % (lname(nm), 'List Nat' if kd[0] == 'region' else {'u': 'Nat', 's': 'Int', 'b': 'Bool'}[kd[0]])
                       for nm, kd in self.params)
+        for ld in getattr(self, 'loopdefs', []):
+            out += ld
         out.append('def %s (env : Env)%s : %s.S :=' % (lname(self.name), (' ' + ps) if ps else '', lname(self.name)))
         inits = []
         pn = [lname(nm) for nm, _ in self.params]
